@@ -463,7 +463,7 @@ class TrajectorySH:
         :param this_electronics: ElectronicStates from current step
         """
         acceleration = self._force(this_electronics) / self.mass
-        self.last_position = self.position
+        self.last_position = np.copy(self.position)
         self.position += self.velocity * self.dt + 0.5 * acceleration * self.dt * self.dt
 
     def advance_velocity(self, last_electronics: ElectronicT, this_electronics: ElectronicT) -> None:
@@ -476,7 +476,7 @@ class TrajectorySH:
         last_acceleration = self._force(last_electronics) / self.mass
         this_acceleration = self._force(this_electronics) / self.mass
 
-        self.last_velocity = self.velocity
+        self.last_velocity = np.copy(self.velocity)
         self.velocity += 0.5 * (last_acceleration + this_acceleration) * self.dt
 
     def surface_hopping(self, last_electronics: ElectronicT, this_electronics: ElectronicT):
